@@ -142,3 +142,20 @@ Proof.
   - intros s Hs IH Hle. cbn [app]. rewrite IH by lia.
     destruct (Z.eq_dec s c) as [->|Hne]; [lia|]. rewrite (zrange_cons s) by lia. reflexivity.
 Qed.
+
+(* number of elements of range(s, e, st): ceil((e - s) / st), or 0 *)
+Lemma zrange_length s e st : 0 < st ->
+  Z.of_nat (length (zrange s e st)) = Z.max 0 ((e - s + st - 1) / st).
+Proof.
+  intro Hst.
+  apply (zrange_ind_fuel (fun s l => Z.of_nat (length l) = Z.max 0 ((e - s + st - 1) / st)) e st Hst).
+  - intros s0 Hle. cbn [length].
+    assert ((e - s0 + st - 1) / st < 1).
+    { apply Z.div_lt_upper_bound; lia. }
+    lia.
+  - intros s0 Hlt IH. cbn [length]. rewrite Nat2Z.inj_succ, IH.
+    replace (e - s0 + st - 1) with ((e - (s0 + st) + st - 1) + 1 * st) by lia.
+    rewrite Z.div_add by lia.
+    assert (0 <= (e - (s0 + st) + st - 1) / st) by (apply Z.div_pos; lia).
+    lia.
+Qed.
